@@ -92,6 +92,38 @@ Proof.
 Qed.
 Print Assumptions C15_bw_halt_agree.
 
+Theorem C15_bw_blank_agree : forall sw comp d d',
+  cant_blank_sw sw comp d <> Ok BwStepLimit -> cant_blank_sw sw comp d' <> Ok BwStepLimit ->
+  cant_blank_sw sw comp d' = cant_blank_sw sw comp d.
+Proof.
+  intros sw comp d d' Hd Hd'. destruct (N.le_ge_cases d d') as [Hle|Hle].
+  - apply (C15_bw_mono sw comp d d' Hle); assumption.
+  - symmetry. apply (C15_bw_mono sw comp d' d Hle); assumption.
+Qed.
+Print Assumptions C15_bw_blank_agree.
+
+Theorem C15_bw_spin_agree : forall sw comp d d',
+  cant_spin_out_sw sw comp d <> Ok BwStepLimit -> cant_spin_out_sw sw comp d' <> Ok BwStepLimit ->
+  cant_spin_out_sw sw comp d' = cant_spin_out_sw sw comp d.
+Proof.
+  intros sw comp d d' Hd Hd'. destruct (N.le_ge_cases d d') as [Hle|Hle].
+  - apply (C15_bw_mono sw comp d d' Hle); assumption.
+  - symmetry. apply (C15_bw_mono sw comp d' d Hle); assumption.
+Qed.
+Print Assumptions C15_bw_spin_agree.
+
+Theorem C15_seg_agree : forall prog params goal s s',
+  2 <= s -> 2 <= s' ->
+  sg_segment_cant_reach prog params s goal <> Ok SgrSegmentLimit ->
+  sg_segment_cant_reach prog params s' goal <> Ok SgrSegmentLimit ->
+  sg_segment_cant_reach prog params s' goal = sg_segment_cant_reach prog params s goal.
+Proof.
+  intros prog params goal s s' H2 H2' Hs Hs'. destruct (N.le_ge_cases s s') as [Hle|Hle].
+  - apply C15_seg_mono; assumption.
+  - symmetry. apply C15_seg_mono; assumption.
+Qed.
+Print Assumptions C15_seg_agree.
+
 Example C15_nonvacuous :
   cant_halt f1_halt_prog 9 = Ok BwStepLimit /\ cant_halt f1_halt_prog 10 = Ok (BwRefuted 9) /\
   cant_halt f1_halt_prog 300 = Ok (BwRefuted 9).
